@@ -450,6 +450,31 @@ func TestC07(t *testing.T) {
 		}
 	}), c07Prop(t, r, "established_vs_just_accepted"))
 
+	// the would-be loser fails in the very burst that creates the collision
+	dreps := r.N(3, 20)
+	hx.Enum(r, t, "loser_goes_down_during_resolution", 0, iter.Seq[c07Down](func(yield func(c07Down) bool) {
+		for rep := 0; rep < dreps; rep++ {
+			for _, ld := range []bool{true, false} {
+				for _, end := range []string{"fin", "rst", "cease"} {
+					for _, of := range []bool{true, false} {
+						if !yield(c07Down{LocalDominant: ld, End: end, OpenFirst: of}) {
+							return
+						}
+						for _, pt := range []string{"peer.collision", "peer.loop", "fsm.transition"} {
+							for skip := 0; skip < 3; skip++ {
+								for _, d := range []int64{10, 50, 150} {
+									if !yield(c07Down{LocalDominant: ld, End: end, OpenFirst: of, ArmPoint: pt, ArmSkip: skip, ArmD: d}) {
+										return
+									}
+								}
+							}
+						}
+					}
+				}
+			}
+		}
+	}), c07DownProp(t, r, "loser_goes_down_during_resolution"))
+
 	hx.Rapid(r, t, "generated", r.N(3000, 30000), func(rt *rapid.T) c07Case {
 		ord := orders[rapid.IntRange(0, len(orders)-1).Draw(rt, "order")]
 		c := c07Case{Bursts: ord}
@@ -486,4 +511,139 @@ func TestC07(t *testing.T) {
 		}
 		return c
 	}, c07Prop(t, r, "generated"))
+}
+
+// ---- the losing connection goes down while the collision is being resolved
+
+// The connection that would lose the collision already sits in OpenConfirm;
+// the remote's OPEN on the other one (which makes it a collision) and the
+// failure of the first arrive in one burst, with the peer manager or an FSM
+// held at a schedule point. Whatever the interleaving, the remaining
+// connection "is left untouched and becomes Established on the remote's
+// KEEPALIVE".
+type c07Down struct {
+	LocalDominant bool   `json:"local_dominant"`
+	End           string `json:"end"` // how the would-be loser goes down: fin rst cease
+	OpenFirst     bool   `json:"open_first"`
+	ArmPoint      string `json:"arm_point,omitempty"`
+	ArmSkip       int    `json:"arm_skip,omitempty"`
+	ArmD          int64  `json:"arm_d,omitempty"`
+}
+
+func c07DownProp(t *testing.T, r *hx.Run, sub string) func(c c07Down) hx.Verdict {
+	return func(c c07Down) hx.Verdict {
+		r.SetCurrent(sub, c)
+		v := hx.Verdict{Class: fmt.Sprintf("localdominant=%v/%s/openfirst=%v/armed=%v", c.LocalDominant, c.End, c.OpenFirst, c.ArmPoint != "")}
+		v.NT = fmt.Sprintf("%+v", c)
+		localID, remoteID := "10.0.0.1", uint32(0x0a000002)
+		if c.LocalDominant {
+			localID = "10.0.0.3"
+		}
+		p := world.PeerSpec{Remote: "10.0.0.2", LocalAS: 64512, RemoteAS: 64513, Hold: 90}
+		var dev *hx.Dev
+		fail := func(key, f string, a ...any) {
+			if dev == nil {
+				dev = hx.Devf(key, f, a...)
+			}
+		}
+		o := world.Run(t, func() {
+			w, err := world.New(localID, []int64{0})
+			if err != nil {
+				fail("setup", "%v", err)
+				return
+			}
+			defer func() {
+				if dev != nil {
+					dev.Msg += "\n" + w.Dump()
+				}
+				w.Finish()
+			}()
+			w.Net.SetPlans(p.RemoteAddr(), memnet.DialPlan{Kind: memnet.Hold})
+			if err := w.AddPeer(p); err != nil {
+				fail("setup", "%v", err)
+				return
+			}
+			w.Serve()
+			w.Settle()
+			out := w.Net.PendingConn(p.RemoteAddr())
+			if out == nil {
+				fail("setup", "corebgp did not dial")
+				return
+			}
+			w.Net.Release(p.RemoteAddr())
+			w.Settle()
+			in := w.Inbound(p.Remote, "10.0.0.1")
+			w.Settle()
+			if len(in.Snapshot().Bytes()) == 0 || len(out.Snapshot().Bytes()) == 0 {
+				fail("setup", "both connections should be in OpenSent")
+				return
+			}
+			// the connection initiated by the dominant speaker wins
+			winner, loser := in, out
+			if c.LocalDominant {
+				winner, loser = out, in
+			}
+			loser.RemoteSend(world.RemoteOpen(p, loser, 90, remoteID).Frame(), nil) // the would-be loser reaches OpenConfirm
+			w.Settle()
+			if loser.Snapshot().LocalClosed {
+				fail("setup", "the first OPEN was refused")
+				return
+			}
+			if c.ArmPoint != "" {
+				w.Arm(c.ArmPoint, c.ArmSkip, c.ArmD)
+			}
+			drop := func() {
+				switch c.End {
+				case "rst":
+					loser.RemoteReset()
+				case "cease":
+					loser.RemoteSend(wire.Notif{Code: 6, Sub: 7}.Frame(), nil) // Connection Collision Resolution
+					loser.RemoteClose()
+				default:
+					loser.RemoteClose()
+				}
+			}
+			open := func() { winner.RemoteSend(world.RemoteOpen(p, winner, 90, remoteID).Frame(), nil) }
+			if c.OpenFirst {
+				open()
+				drop()
+			} else {
+				drop()
+				open()
+			}
+			w.Settle()
+			if !loser.Snapshot().LocalClosed {
+				fail("loser-not-closed", "the connection that went down is still open on corebgp's side")
+				return
+			}
+			if winner.Snapshot().LocalClosed {
+				msgs, _ := world.Parsed(winner)
+				fail("survivor-closed", "the remaining connection was closed (last message from corebgp: type %v)", firstType(msgs[max(len(msgs)-1, 0):]))
+				return
+			}
+			winner.RemoteSend(wire.Keepalive(), nil)
+			w.Settle()
+			if w.Sessions(p.Remote) != 1 || winner.Snapshot().LocalClosed {
+				fail("survivor-not-established", "the remaining connection did not become Established on the remote's KEEPALIVE (OnEstablished x%d, closed=%v)", w.Sessions(p.Remote), winner.Snapshot().LocalClosed)
+				return
+			}
+			tag := taggedUpdate(0x07100000, 11)
+			winner.RemoteSend(wire.Frame(wire.TypeUpdate, tag), nil)
+			w.Settle()
+			got := false
+			for _, e := range w.Rec.Events() {
+				if e.K == "upd+" && bytes.Equal(e.Data, tag) {
+					got = true
+				}
+			}
+			if !got {
+				fail("survivor-dead", "the Established session does not deliver UPDATEs")
+			}
+		})
+		if b := o.Bad(); b != "" {
+			fail("wedge", "%s", b)
+		}
+		v.Dev = dev
+		return v
+	}
 }
